@@ -391,7 +391,9 @@ def oracle(ctx, cases, lines):
 
 
 def build(ctx):
-    res = ctx.cxx_many([('harness.cpp', 'harness_p%d' % k, ['-DPART=%d' % k, '-I', ctx.pdir]) for k in (0, 1, 2, 3)])
+    # quick tier: -O0 -g0 (the four TUs are template-heavy; optimisation and debug info triple the cold build time); thorough: -O1 -g + sanitizers
+    fl = ['-O0', '-g0'] if ctx.quick() else []
+    res = ctx.cxx_many([('harness.cpp', 'harness_p%d' % k, ['-DPART=%d' % k, '-I', ctx.pdir] + fl) for k in (0, 1, 2, 3)])
     if any(res.get('harness_p%d' % k) is None for k in (0, 1, 2, 3)):
         ctx.stage('build-harness', False, getattr(ctx, 'last_cxx_error', ''))
         return None
